@@ -333,6 +333,9 @@ func TestLbvcScenarioCompaction(t *testing.T) {
 		mk("- a - a - b b -"),
 		mk("a b a b a b a b a b a b"),
 		mk("x y z x y z q q q x"),
+		// "=" is an EMPTY (non-nil) key: a key like any other, distinct from "no key"
+		mk("= - - a - a -"),
+		mk("= a = - = b -"),
 	}
 	for li, lay := range layouts {
 		for _, segBytes := range []int64{60, 100, 150, 400} {
@@ -341,7 +344,9 @@ func TestLbvcScenarioCompaction(t *testing.T) {
 				var all []kv
 				for _, e := range lay {
 					var key []byte
-					if e.k != "-" {
+					if e.k == "=" {
+						key = []byte{}
+					} else if e.k != "-" {
 						key = []byte(e.k)
 					}
 					if _, err := l.Append([]*Message{{Key: key, Value: []byte(e.v), Timestamp: 1}}); err != nil {
@@ -368,7 +373,7 @@ func TestLbvcScenarioCompaction(t *testing.T) {
 					if e.k == "-" || o >= hw || o >= newestBase || latest[e.k] == o {
 						want = append(want, o)
 						k := e.k
-						if k == "-" {
+						if k == "-" || k == "=" {
 							k = ""
 						}
 						wantVal[o] = k + "=" + e.v
